@@ -71,7 +71,7 @@ class CtxModel:
         self.tin = w.fn("tin", V, T)
         self.Tr = w.fn("Tr", z3.IntSort(), z3.IntSort(), z3.IntSort(), z3.IntSort(), T, T)
         self.castT = w.fn("castT", T, T)
-        self.src = w.fn("src", T, J)
+        self.src = w.fn("tensor_src", T, J)
         self.label = w.fn("dim_label", ref_sort(SYMDIM), z3.StringSort())
         t, j = z3.Const("t!c", T), z3.Const("j!c", J)
         a, b, c, d = z3.Ints("a!c b!c c!c d!c")
@@ -150,7 +150,9 @@ class CtxModel:
         def mk_attr(ex, args, kw):
             a = ex.fresh_const("attr", ref_sort(GM.ATTR))
             ex.assume(a != null_of(GM.ATTR))
-            return VRef(GM.ATTR, a)
+            r = VRef(GM.ATTR, a)
+            r.payload = args[1] if len(args) > 1 else None   # what the attribute was built from (read by transaction specs)
+            return r
         w.path_models["onnx_ir.convenience.convert_attribute"] = mk_attr
         w.path_models["jax2onnx.ir_utils.tensor_attr"] = mk_attr
 
